@@ -54,6 +54,20 @@ def impl(case):
 def make_case(rng, i, tier):
     R = rng.choice(["Float", "Float", "Float", "Real", "Boolean", "MaxTimes"])
     desc, shape = gen.gen_wfsa(rng)
+    if rng.random() < 0.2:
+        # an ε-graph component with NESTED cycles: the 3-cycle u→v→w→u plus the chord w→v (optionally a 4th state on a second
+        # chord), under every naming / insertion order — the block decomposition behind the ε-closure must keep it in ONE block
+        names = rng.sample([100, 101, 102, 103], 4)
+        u, v, w, t = names
+        a0 = rng.choice(desc["syms"])
+        cyc = [[u, "", v, "1/4"], [v, "", w, "1/2"], [w, "", u, "1/4"], [w, "", v, "1/8"]]
+        if rng.random() < 0.4:
+            cyc += [[w, "", t, "1/4"], [t, "", v, "1/4"], [t, "", u, "1/8"]]
+        rng.shuffle(cyc)
+        ent = rng.choice([u, v, w])
+        desc = {**desc, "start": desc["start"] + [[ent, "1/2"]], "stop": desc["stop"] + [[rng.choice([u, v, w]), "1/2"]],
+                "arcs": desc["arcs"] + cyc + [[rng.choice([u, v, w]), a0, rng.choice([u, v, w]), "1/4"]]}
+        shape += "+eps_scc_chord"
     if R == "Boolean":
         desc = gen.wfsa_to_bool(desc)
     if R == "MaxTimes":
